@@ -908,3 +908,18 @@ silent("c02-select-merged-conditions", ["C02", "C10", "C19"],
 		}""", """		if minter.SequenceId < currentId && (previousMinter == nil || previousMinter.SequenceId < minter.SequenceId) {
 			previousMinter = minter
 		}"""))
+
+# ---------------- round 4: minter parameter migration keeps the schedule ----------------
+MIGM = "x/cfeminter/migrations/v3/params.go"
+fire("c16-paramfields-seq-shifted", "C16", ["C16.paramfields"],
+     (MIGM, "		newMinter.SequenceId = oldMinter.SequenceId\n", "		newMinter.SequenceId = oldMinter.SequenceId + 1\n"))
+fire("c16-paramfields-start-now", "C16", ["C16.paramfields"],
+     (MIGM, "	newParams.StartTime = oldParams.MinterConfig.StartTime\n", "	newParams.StartTime = ctx.BlockTime()\n"))
+fire("c16-paramfields-first-only", "C16", ["C16.paramfields"],
+     (MIGM, "		newMinter.Config = config\n	}", "		newMinter.Config = config\n		break\n	}"))
+silent("c16-paramfields-literal", "C16",
+       (MIGM, """		var newMinter types.Minter
+		newMinter.SequenceId = oldMinter.SequenceId
+		newMinter.EndTime = oldMinter.EndTime
+""", """		newMinter := types.Minter{SequenceId: oldMinter.SequenceId, EndTime: oldMinter.EndTime}
+"""))
